@@ -20,7 +20,12 @@ def run(d):
         if cur and l.startswith("  "):
             r = re.search(r"\[([A-Za-z0-9_.\-=]+)\]", l)
             if r and r.group(1) not in res[cur]: res[cur].append(r.group(1))
-    return {"applies": "PATCH DOES NOT APPLY" not in out, "reported_by": res}
+    ran = len(set(re.findall(r"^property=(C\d+)", out, re.M)))
+    r = {"applies": "PATCH DOES NOT APPLY" not in out, "reported_by": res}
+    if r["applies"] and ran < 18:
+        # a check that did not finish (a crash of the analyser) must not pass for silence
+        r["incomplete"] = 18 - ran
+    return r
 def main():
     out = sys.argv[1]; dirs = sys.argv[2:]
     results = {}
@@ -30,5 +35,5 @@ def main():
             d = futs[f]; results[os.path.basename(d.rstrip("/")) if "R-" not in d else "/".join(d.rstrip("/").split("/")[-2:])] = f.result()
     json.dump(dict(sorted(results.items())), open(out, "w"), indent=1)
     for k, v in sorted(results.items()):
-        print(k, "->", {p: r for p, r in v["reported_by"].items()} if v["applies"] else "DOES NOT APPLY")
+        print(k, "->", {p: r for p, r in v["reported_by"].items()} if v["applies"] else "DOES NOT APPLY", ("INCOMPLETE: %d checks did not finish" % v["incomplete"]) if v.get("incomplete") else "")
 main()
